@@ -24,6 +24,9 @@ pub struct Stim {
   pub fin: String,
   #[serde(default)]
   pub cnt: Vec<i64>,
+  /// where a deadlocked run is blocked (creation site of the lock), for triage only
+  #[serde(default, skip_serializing_if = "String::is_empty")]
+  pub site: String,
 }
 #[derive(Deserialize, Serialize, Clone, Debug, Default)]
 pub struct React {
@@ -246,7 +249,8 @@ pub fn run_case(case: &Case) -> Run {
       break;
     }
     let fin = if completed { "ok" } else if panicked { "panic" } else { verdict };
-    stims.push(Stim { st: s.st.clone(), obs, fin: fin.to_string(), cnt: counts[i].clone().unwrap_or_default() });
+    let site = if fin == "stuck" { { let o = format!("{:?}", r.outcome); o.split('[').filter(|x| x.contains(".rs:")).filter_map(|x| x.split(']').next()).collect::<Vec<_>>().join(" ") } } else { String::new() };
+    stims.push(Stim { st: s.st.clone(), obs, fin: fin.to_string(), cnt: counts[i].clone().unwrap_or_default(), site });
     if !completed {
       break;
     }
@@ -368,7 +372,7 @@ fn show(v: &[Obs]) -> String {
 pub fn trace_lines(id: u64, case: &Case, run: &Run, out: &mut Vec<String>) {
   out.push(serde_json::json!({"ev": "reset", "id": id, "root": case.root, "cfg": case.cfg, "rev": case.rev}).to_string());
   for s in &run.stims {
-    out.push(serde_json::json!({"ev": "stim", "st": s.st, "obs": s.obs, "fin": s.fin, "cnt": s.cnt}).to_string());
+    out.push(serde_json::json!({"ev": "stim", "st": s.st, "obs": s.obs, "fin": s.fin, "cnt": s.cnt, "site": s.site}).to_string());
   }
   out.push(serde_json::json!({"ev": "end", "id": id, "leak_sink": run.leak_sink.unwrap_or(false), "leak_ops": run.leak_ops.unwrap_or(false), "measured": run.leak_sink.is_some(), "truncated": run.truncated}).to_string());
 }
